@@ -77,6 +77,9 @@ pub enum StdinKind {
     /// offset already advanced to the given position (as after a shell's
     /// `(head -c N >/dev/null; xt) < file`).
     FileAtOffset(Vec<u8>, u64),
+    /// The bytes arrive on a pipe in separate bursts, with a pause (milliseconds)
+    /// after each burst; the pipe is closed after the last one.
+    Bursts(Vec<Vec<u8>>, u64),
 }
 
 pub struct Run<'a> {
@@ -151,6 +154,35 @@ pub fn feed_fifo(path: PathBuf, content: Vec<u8>) -> std::thread::JoinHandle<()>
     })
 }
 
+/// Like `feed_fifo`, but the content arrives in bursts with a pause after each.
+pub fn feed_fifo_bursts(path: PathBuf, bursts: Vec<Vec<u8>>, pause_ms: u64) -> std::thread::JoinHandle<()> {
+    std::thread::spawn(move || {
+        let c = CString::new(path.to_str().unwrap()).unwrap();
+        let mut fd = -1;
+        for _ in 0..2000 {
+            fd = unsafe { libc::open(c.as_ptr(), libc::O_WRONLY | libc::O_NONBLOCK) };
+            if fd >= 0 {
+                break;
+            }
+            std::thread::sleep(Duration::from_millis(5));
+        }
+        if fd < 0 {
+            return;
+        }
+        unsafe {
+            let flags = libc::fcntl(fd, libc::F_GETFL);
+            libc::fcntl(fd, libc::F_SETFL, flags & !libc::O_NONBLOCK);
+        }
+        let mut f = unsafe { File::from_raw_fd(fd) };
+        for b in bursts {
+            if f.write_all(&b).is_err() {
+                break;
+            }
+            std::thread::sleep(Duration::from_millis(pause_ms));
+        }
+    })
+}
+
 fn open_pty() -> Option<(RawFd, File)> {
     unsafe {
         let master = libc::posix_openpt(libc::O_RDWR | libc::O_NOCTTY);
@@ -191,7 +223,7 @@ pub fn run(r: Run) -> ProcOut {
         StdinKind::Null => {
             cmd.stdin(Stdio::null());
         }
-        StdinKind::Bytes(_) | StdinKind::BytesAfterConsumerLeft(_) => {
+        StdinKind::Bytes(_) | StdinKind::BytesAfterConsumerLeft(_) | StdinKind::Bursts(..) => {
             cmd.stdin(Stdio::piped());
         }
         StdinKind::FileAtOffset(b, off) => {
@@ -287,6 +319,19 @@ pub fn run(r: Run) -> ProcOut {
                 // wait until the consumer is gone (or the run is over)
                 let _ = gate_rx.recv_timeout(Duration::from_secs(120));
                 let _ = si.write_all(&b);
+            }))
+        }
+        StdinKind::Bursts(bursts, pause_ms) => {
+            let mut si = child.stdin.take().unwrap();
+            let bursts = bursts.clone();
+            let pause = *pause_ms;
+            Some(std::thread::spawn(move || {
+                for b in bursts {
+                    if si.write_all(&b).and_then(|_| si.flush()).is_err() {
+                        break;
+                    }
+                    std::thread::sleep(Duration::from_millis(pause));
+                }
             }))
         }
         StdinKind::Null | StdinKind::FileAtOffset(..) => None,
